@@ -242,19 +242,21 @@ Definition append_bonds (s : st) (l : list (positive * positive)) : res :=
 Definition el_Unknown : N := 0%N.
 Definition el_H : N := 1%N.
 
-(* Structure.remove_substituent(a1, a2, ap_label=l):
+(* Structure.remove_substituent(a1, a2, ap_label=l)  (as repaired: both designators are resolved once,
+   before anything is deleted):
+     a1, a2 = get_atoms(a1, a2)
      c2 = get_atom_coord(a2)
      for a in tuple(yield_bfs(a1, a2)): del_atom(a)
      add_atom(new attachment point, c2); connect(a1, new)                                   *)
-Definition remove_substituent_body (s : st) (s1 s2 : sel) (l : option N) : res :=
-  match get_atom_index s s2 with
-  | None => Err s
-  | Some i2 =>
-    match nth_error (coords s) i2 with
+Definition remove_substituent (s : st) (s1 s2 : sel) (l : option N) : res :=
+  match get_atom s s1, get_atom s s2 with
+  | Some a1, Some a2 =>
+    match get_atom_index s (ByObj (a_id a2)) with
     | None => Err s
-    | Some c2 =>
-      match get_atom s s1, get_atom s s2 with
-      | Some a1, Some a2 =>
+    | Some i2 =>
+      match nth_error (coords s) i2 with
+      | None => Err s
+      | Some c2 =>
           if mem (a_id a2) (neighbours s (a_id a1)) then
             match bfs_loop (bfs_fuel s) s [a_id a2; a_id a1] [a_id a2] [a_id a2] with
             | None => OutOfFuel
@@ -262,20 +264,12 @@ Definition remove_substituent_body (s : st) (s1 s2 : sel) (l : option N) : res :
                 (* next_a s' is the name the new attachment point receives *)
                 bind (fold_left (fun r x => bind r (fun s' => del_atom s' (ByObj x))) out (Ok s))
                      (fun s' => bind (add_atom s' el_Unknown l (Some c2) None)
-                                     (fun s'' => conn_connect s'' s1 (ByObj (next_a s'))))
+                                     (fun s'' => conn_connect s'' (ByObj (a_id a1)) (ByObj (next_a s'))))
             end
           else Err s
-      | _, _ => Err s
       end
     end
-  end.
-
-(* a1 is resolved again AFTER the deletions (connect(a1, new)): designated by position it then names a
-   different atom -- recorded finding, left unspecified here *)
-Definition remove_substituent (s : st) (s1 s2 : sel) (l : option N) : res :=
-  match s1 with
-  | ByIdx _ => Unspec
-  | _ => remove_substituent_body s s1 s2 l
+  | _, _ => Err s
   end.
 
 (* Structure.add_implicit_hydrogens(atoms...), structural effect only: for every target atom x the
